@@ -1997,12 +1997,12 @@ impl Parser {
                 tag = Some(self.parse_simple_stmt()?);
             }
 
+            // a second simple statement may only follow a `;`
             if self.skipped(Operator::SemiColon)? {
                 init = tag.take();
-            }
-
-            if self.current_not(Operator::BraceLeft) {
-                tag = Some(self.parse_simple_stmt()?);
+                if self.current_not(Operator::BraceLeft) {
+                    tag = Some(self.parse_simple_stmt()?);
+                }
             }
         };
 
